@@ -111,7 +111,7 @@ class C07(Check):
                                                                   'plan': plan, 'behaviours': beh, 'seed': seed, 'split': split},
             st.sampled_from(['sync', 'async']), st.sampled_from(['sync', 'async']), st.sampled_from([True, True, False]), s_idgen,
             st.sampled_from(SINGLE_NOTATIONS + BATCH_NOTATIONS + BATCH_NOTATIONS), st.sampled_from(SINGLE_NOTATIONS + BATCH_NOTATIONS),
-            st.lists(step(), min_size=1, max_size=4), stdreg.behaviours(), st.integers(0, 1000), st.integers(1, 3),
+            st.lists(step(), min_size=1, max_size=4), stdreg.behaviours(True), st.integers(0, 1000), st.integers(1, 3),
         )
 
     def corpus(self):
